@@ -51,9 +51,7 @@ impl crate::CborSerializable for CoseMac {}
 
 impl crate::TaggedCborSerializable for CoseMac {
     #[verifier::external_body] const TAG: u64 = iana::CborTag::CoseMac as u64;
-}
-
-«use crate::header::{prot_ok, prot_res, hdr_ok, hdr_res, hdr_cv, hdr_encodable};
+}«use crate::header::{prot_ok, prot_res, hdr_ok, hdr_res, hdr_cv, hdr_encodable};
 use crate::encrypt::{recipients_ok, recipients_res, recipients_cv, recipients_encodable, lemma_recipients_array};
 pub open spec fn mac_ok(v: Value) -> bool {
     v is Array && arr_of(v).len() == 5 && prot_ok(arr_of(v)[0], 0) && hdr_ok(arr_of(v)[1], 0) && is_bytes_or_null(arr_of(v)[2]) && arr_of(v)[3] is Bytes && recipients_ok(arr_of(v)[4])
@@ -67,6 +65,7 @@ pub open spec fn mac_cv(x: CoseMac) -> CV {
 }
 pub open spec fn mac_encodable(x: CoseMac) -> bool { prot_encodable(x.protected) && hdr_encodable(x.unprotected) && recipients_encodable(x.recipients@) }
 »
+
 impl AsCborValue for CoseMac {«
     open spec fn dec_rel(value: Value, r: Result<Self>) -> bool { (r is Ok <==> mac_ok(value)) && (r matches Ok(x) ==> mac_res(value, x)) }
     open spec fn enc_rel(self, r: Result<Value>) -> bool { (r is Ok <==> mac_encodable(self)) && (r matches Ok(v) ==> vv(v) == mac_cv(self)) }»
@@ -270,9 +269,7 @@ impl crate::CborSerializable for CoseMac0 {}
 
 impl crate::TaggedCborSerializable for CoseMac0 {
     #[verifier::external_body] const TAG: u64 = iana::CborTag::CoseMac0 as u64;
-}
-
-«pub open spec fn mac0_ok(v: Value) -> bool {
+}«pub open spec fn mac0_ok(v: Value) -> bool {
     v is Array && arr_of(v).len() == 4 && prot_ok(arr_of(v)[0], 0) && hdr_ok(arr_of(v)[1], 0) && is_bytes_or_null(arr_of(v)[2]) && arr_of(v)[3] is Bytes
 }
 pub open spec fn mac0_res(v: Value, x: CoseMac0) -> bool {
@@ -283,6 +280,7 @@ pub open spec fn mac0_cv(x: CoseMac0) -> CV {
 }
 pub open spec fn mac0_encodable(x: CoseMac0) -> bool { prot_encodable(x.protected) && hdr_encodable(x.unprotected) }
 »
+
 impl AsCborValue for CoseMac0 {«
     open spec fn dec_rel(value: Value, r: Result<Self>) -> bool { (r is Ok <==> mac0_ok(value)) && (r matches Ok(x) ==> mac0_res(value, x)) }
     open spec fn enc_rel(self, r: Result<Value>) -> bool { (r is Ok <==> mac0_encodable(self)) && (r matches Ok(v) ==> vv(v) == mac0_cv(self)) }»
